@@ -372,6 +372,12 @@ public:
 				// ubit = false; already set to false
 				std::cout << "conversion of IEEE double to more precise areals not implemented yet\n";
 			}
+			// all exponent bits and all fraction bits set is the encoding of inf/nan: such a value lies beyond maxpos and saturates
+			if (exponent == MAX_EXP - 1 && (raw >> 1) == ((1ull << fbits) - 1ull)) {
+				if (s) maxneg(); else maxpos();
+				this->set(0);
+				return *this;
+			}
 		}
 #if TRACE_CONVERSION
 		std::cout << "biased exponent : " << biasedExponent << " : 0x" << std::hex << biasedExponent << std::dec << '\n';
@@ -521,6 +527,12 @@ public:
 			else { // all bits of the double go into this representation and need to be shifted up
 				// ubit = false; already set to false
 				std::cout << "conversion of IEEE double to more precise areals not implemented yet\n";
+			}
+			// all exponent bits and all fraction bits set is the encoding of inf/nan: such a value lies beyond maxpos and saturates
+			if (exponent == MAX_EXP - 1 && (raw >> 1) == ((1ull << fbits) - 1ull)) {
+				if (s) maxneg(); else maxpos();
+				this->set(0);
+				return *this;
 			}
 		}
 #if TRACE_CONVERSION
